@@ -27,7 +27,7 @@ def check_case(case, ctx):
     c1 = base.canon(one, s1, i1)
     inc = common.build(case)
     common.run_decoy(case, inc)  # the matcher that is fed incrementally may have been used for another trace before
-    cuts = [c for c in case["cuts"] if 0 < c < n]
+    cuts = [c for c in case["cuts"] if 0 < c <= n]
     res = None
     for j, c in enumerate(cuts + [n]):
         if j == 0:
@@ -50,6 +50,8 @@ def check_case(case, ctx):
         classes.append("early-stop")
         if any(c == c1["idx"] + 1 for c in cuts):
             classes.append("cut-at-stop")
+    if len(set(cuts + [n])) < len(cuts) + 1:
+        classes.append("repeated-cut")
     if case["config"].get("max_lattice_width"):
         classes.append("width")
     if any(k[-1] != 0 for k in c1["keys"]):
@@ -63,7 +65,12 @@ def strategy(tier):
         case = draw(common.mixed_case(tier, ne_share=3, min_len=2,
                                       trace_kw={"kinds": ["walk", "walk", "sparse", "outlier", "outlier", "exact", "repeat", "random"]}))
         n = len(case["trace"])
-        cuts = sorted(set(draw(st.lists(st.integers(1, max(1, n - 1)), min_size=1, max_size=4))))
+        cuts = sorted(draw(st.lists(st.integers(1, max(1, n - 1)), min_size=1, max_size=4)))
+        if draw(st.booleans()):
+            cuts = sorted(set(cuts))
+        elif draw(st.booleans()):
+            cuts.append(n)  # the whole trace is also handed over twice
+        # (a repeated cut point is a continuation call that brings no new observation - "any number of times")
         case["cuts"] = cuts
         case["unique"] = draw(st.booleans())
         case = draw(common.maybe_decoy(case, share=3))
